@@ -98,6 +98,7 @@ func fetch(
 		return fmt.Errorf("requesting Bitswap blocks: %w", err)
 	}
 
+	var failed error
 	for bitswapBlk := range blkCh { // GetBlocks closes blkCh on ctx cancellation
 		// NOTE: notification for duplicates is on purpose and to cover a flaky case
 		// It's harmless in practice to do additional notifications in case of duplicates
@@ -115,8 +116,8 @@ func fetch(
 			if err != nil {
 				// this means verification succeeded in the hasher but failed here
 				// this case should never happen in practice
-				// and if so something is really wrong
-				panic(fmt.Sprintf("unmarshaling duplicate block: %s", err))
+				failed = fmt.Errorf("unmarshaling duplicate block %s: %w", bitswapBlk.Cid(), err)
+				continue
 			}
 			// NOTE: This approach has a downside that we redo deserialization and computationally
 			// expensive computation for as many duplicates. We tried solutions that doesn't have this
@@ -130,6 +131,9 @@ func fetch(
 		if err != nil {
 			log.Error("failed to store the new Bitswap block: %s", err)
 		}
+	}
+	if failed != nil {
+		return failed
 	}
 
 	return ctx.Err()
